@@ -97,11 +97,13 @@ class ContractionCosts:
         """Generate a set of contraction costs from a ``ContractionTree``
         object.
         """
-        # n.b. indices that are already sliced can't be sliced again
+        # n.b. only indices of the network itself are candidates (``size_dict``
+        # might have spare entries) and not those that are already sliced
         size_dict = {
             ix: d
             for ix, d in contraction_tree.size_dict.items()
-            if ix not in contraction_tree.sliced_inds
+            if (ix in contraction_tree.appearances)
+            and (ix not in contraction_tree.sliced_inds)
         }
         contractions = (
             (
